@@ -427,22 +427,42 @@ Theorem C14_scopes_by_address_lookup : forall ops a id, let st := run ops in
 Proof. exact scopes_by_address_lookup. Qed.
 Print Assumptions C14_scopes_by_address_lookup.
 
-(** What the two owner messages do when accepted: AddScopeOwner appends parties that were not
-    there (as strings) to a scope whose specification exists; DeleteScopeOwner removes all listed
-    addresses, which all were owners, and never the last owner. *)
+(** What the two owner messages do when accepted: AddScopeOwner appends parties none of which
+    IsSameAs (address string and role) an existing one, on a scope whose specification exists, and
+    optional parties only on a scope with party rollup; DeleteScopeOwner removes every party with a
+    listed address, all of which were owners' addresses, and never the last owner. *)
 Theorem C14_owner_messages : forall st id l st' sc, find_scope st id = Some sc ->
   (step st (MAddOwners id l) = (st', true) ->
-   find_scope st' id = Some (Sc id (sc_spec sc) (sc_owners sc ++ l) (sc_da sc)) /\
-   l <> [] /\ (forall a, In a l -> ~ In a (sc_owners sc)) /\
+   find_scope st' id = Some (ScR id (sc_spec sc) (sc_owners sc ++ l) (sc_da sc) (sc_rollup sc)) /\
+   l <> [] /\ (forall a, In a l -> ~ In (p_same a) (map p_same (sc_owners sc))) /\
+   optional_ok (sc_rollup sc) (sc_owners sc ++ l) = true /\
    isSome (find_sspec st (sc_spec sc)) = true) /\
   (step st (MDelOwners id l) = (st', true) ->
-   find_scope st' id = Some (Sc id (sc_spec sc) (drop_all l (sc_owners sc)) (sc_da sc)) /\
-   drop_all l (sc_owners sc) <> [] /\ (forall a, In a l -> In a (sc_owners sc))).
+   find_scope st' id = Some (ScR id (sc_spec sc) (drop_addrs l (sc_owners sc)) (sc_da sc) (sc_rollup sc)) /\
+   drop_addrs l (sc_owners sc) <> [] /\ (forall a, In a l -> In a (map p_entry (sc_owners sc)))).
 Proof.
   exact (fun st id l st' sc Hf =>
     conj (add_owners_effect st id l st' sc Hf) (del_owners_effect st id l st' sc Hf)).
 Qed.
 Print Assumptions C14_owner_messages.
+
+(** Party rollup.  EVERY owner party of a stored scope - required or OPTIONAL, whatever its role,
+    the same address under several roles - is listed under its address after ANY history ([acct]
+    of a party ignores role and flag; getScopeIndexValues takes every owner party). *)
+Theorem C14_every_owner_party_listed : forall ops sc p,
+  In sc (scopes (run ops)) -> In p (sc_owners sc) -> In (acct p, sc_id sc) (ix_as (run ops)).
+Proof. exact every_owner_party_listed. Qed.
+Print Assumptions C14_every_owner_party_listed.
+
+(** An accepted MsgDeleteContractSpecification leaves nothing of it, after ANY history: not the
+    contract specification, NONE of its record specifications (however many there are), no entry
+    in the owner lookup, and no scope specification lists it. *)
+Theorem C14_delete_contract_spec_leaves_nothing : forall ops id st',
+  step (run ops) (MDeleteCSpec id) = (st', true) ->
+  find_cspec st' id = None /\ (forall r, In r (rspecs st') -> rs_cspec r <> id) /\
+  (forall a, ~ In (a, id) (ix_ac st')) /\ (forall x, ~ In (id, x) (ix_cs st')).
+Proof. exact delete_cspec_clean_run. Qed.
+Print Assumptions C14_delete_contract_spec_leaves_nothing.
 
 (** The statement above was FALSE of the code before fix 722f4df35 (finding
     C14-spec-owner-respelling, findings/C14.md): the two specification writers diffed the owner
@@ -523,6 +543,14 @@ Example C14_witness :
    forallb spec_guarded h = true /\ oks h = repeat true 12 /\
    ix_as (run h) = [(4, 5); (3, 5)] /\ locs_by_scope (run h) 5 = Some [(4, 3)] /\
    locs (fst (step (run h) (MDeleteScope 5))) = [(4, 3)]) /\
+  (* party rollup: a required -> optional flip (WriteScope) keeps the entry; optional parties only
+     with rollup; the same address under several roles *)
+  (let ops := [MWriteCSpec (Cs 1 [1]); MWriteSSpec (Ss 1 [1] [1]);
+               MWriteScope (ScR 1 1 [1; 1002] [] true) 0; MWriteScope (ScR 1 1 [1; 101002] [] true) 0;
+               MWriteScope (ScR 1 1 [1; 101002] [] false) 0; MAddOwners 1 [102003]; MAddOwners 1 [103]] in
+   oks ops = [true; true; true; true; false; true; true] /\
+   ix_as (run ops) = [(3, 1); (2, 1); (1, 1)] /\
+   scopes (run ops) = [ScR 1 1 [1; 101002; 102003; 103] [] true]) /\
   (* byte level: a concrete environment meets the hypotheses, the store's keys are as laid out *)
   (let e := env_of [repeat 1%N 16; repeat 2%N 16] [repeat 3%N 16] [] [] [repeat 9%N 16] [] [] in
    store_keys e (run [KSetSession (Se 2 1 0); KSetRecord (Re 2 1 1)]) =
